@@ -7,7 +7,7 @@ package hashprefix
 //@ import internal github.com/AdguardTeam/AdGuardDNS/internal/filter/internal
 //@ import netutil github.com/AdguardTeam/golibs/netutil
 
-//@ immutable Filter.*, cacheItem.*
+//@ immutable Filter.*, cacheItem.*, Storage.*
 
 // ---------------------------------------------------------------------------
 // C12: the result cache of a hash-prefix filter does not survive a refresh.
@@ -22,12 +22,46 @@ package hashprefix
 //@ fun listedIn(s *Storage, ver int, host string) bool
 
 //@ func (*Storage).Reset
-//@   modifies hsVer[s]
+//@   property C11
+//@   requires s != nil && s.resetMu != nil && s.hashSuffixes != nil && apCur[s.hashSuffixes] != 0
+//@   modifies hsVer[s], apCur[s.hashSuffixes], listOf, slotOf, rdText, scText, scPos, scErr, ptrLoads
+//@   atcall Store set listOf[arg1] = hostnames
+//@   atcall mapupdate set slotOf[arg0][scPos[sc] - 1] = len(arg2) - 1
+//@   atcall Store set hsVer[s] = hsVer[s] + 1
+//@   ensures the-new-list-is-exactly-the-entries-of-the-text: err == nil ==> SI(s) && curText(s) == hostnames
 //@   ensures err == nil ==> hsVer[s] == old(hsVer[s]) + 1
-//@   ensures err != nil ==> hsVer[s] == old(hsVer[s])
+//@   ensures a-failed-reset-keeps-the-list: err != nil ==> hsVer[s] == old(hsVer[s]) && apCur[s.hashSuffixes] == old(apCur[s.hashSuffixes]) && curText(s) == old(curText(s))
+//@   loop 1 invariant sc != nil && scText[sc] == hostnames && scPos[sc] >= 0
+//@   loop 1 invariant next != nil && fresh(next) && (forall b0 int, b1 int :: {has(next, arrlit(Prefix, b0, b1))} has(next, arrlit(Prefix, b0, b1)) ==> fresh(next[arrlit(Prefix, b0, b1)]))
+//@   loop 1 invariant forall b0 int, b1 int, c0 int, c1 int :: {has(next, arrlit(Prefix, b0, b1)), has(next, arrlit(Prefix, c0, c1))} has(next, arrlit(Prefix, b0, b1)) && has(next, arrlit(Prefix, c0, c1)) && (b0 != c0 || b1 != c1) ==> arr(next[arrlit(Prefix, b0, b1)]) != arr(next[arrlit(Prefix, c0, c1)])
+//@   loop 1 invariant MapSound(next, hostnames, scPos[sc])
+//@   loop 1 invariant MapComplete(next, hostnames, scPos[sc])
+//@   loop 1 invariant hsVer[s] == old(hsVer[s]) && apCur[s.hashSuffixes] == old(apCur[s.hashSuffixes]) && listOf == old(listOf)
 //@ func (*Storage).Matches
-//@   modifies nothing
-//@   ensures ok == listedIn(s, hsVer[s], host)
+//@   property C11
+//@   requires SI(s)
+//@   modifies ptrLoads
+//@   ensures matched-exactly-when-a-listed-name-has-this-hash: ok == listedUpTo(curText(s), nlines(curText(s)), host)
+//@   loop 1 invariant -1 <= #i && #i < len(hashSufs) && sum == sha(host) && buf[0] == sum[0] && buf[1] == sum[1]
+//@   loop 1 invariant forall j int :: 0 <= j && j <= #i ==> hashSufs[j] != subarr(sum, 2, suffix)
+
+// What "listed" means: one of the first k lines of the text t is an entry (not
+// blank, not a comment) with the SHA-256 of x.
+//@ pred isEntry(l string) = len(l) != 0 && l[0] != 35
+//@ pred listedUpTo(t string, k int, x string) = exists i int :: {lineOf(t, i)} 0 <= i && i < k && isEntry(lineOf(t, i)) && sha(lineOf(t, i)) == sha(x)
+// Representation: the map holds, under the first two bytes of a hash, the
+// remaining thirty.  Sound: every stored suffix is the hash of an entry.
+// Complete: the hash of every entry is stored.
+//@ pred MapSound(m suffixMap, t string, k int) = forall b0 int, b1 int, j int :: {has(m, arrlit(Prefix, b0, b1)), idx(j)} has(m, arrlit(Prefix, b0, b1)) && 0 <= j && j < len(m[arrlit(Prefix, b0, b1)]) && idx(j) ==> (exists i int :: {lineOf(t, i)} 0 <= i && i < k && isEntry(lineOf(t, i)) && sha(lineOf(t, i))[0] == b0 && sha(lineOf(t, i))[1] == b1 && subarr(sha(lineOf(t, i)), 2, suffix) == m[arrlit(Prefix, b0, b1)][j])
+// slotOf[m][i]: where in its prefix's list the suffix of line i was put (ghost witness).
+//@ ghost slotOf map[int]map[int]int
+//@ pred MapComplete(m suffixMap, t string, k int) = forall i int :: {lineOf(t, i)} 0 <= i && i < k && isEntry(lineOf(t, i)) ==> has(m, subarr(sha(lineOf(t, i)), 0, Prefix)) && 0 <= slotOf[m][i] && slotOf[m][i] < len(m[subarr(sha(lineOf(t, i)), 0, Prefix)]) && m[subarr(sha(lineOf(t, i)), 0, Prefix)][slotOf[m][i]] == subarr(sha(lineOf(t, i)), 2, suffix)
+//@ pred MapFor(m suffixMap, t string, k int) = MapSound(m, t, k) && MapComplete(m, t, k)
+// listOf[c]: the text the map in cell c was built from.
+//@ ghost listOf map[int]string
+//@ pred curCell(s *Storage) = toptr(apCur[s.hashSuffixes], suffixMap)
+//@ pred curText(s *Storage) = listOf[apCur[s.hashSuffixes]]
+//@ fpred SI(s *Storage) = s != nil && s.hashSuffixes != nil && apCur[s.hashSuffixes] != 0 && MapFor(deref(curCell(s)), curText(s), nlines(curText(s)))
 
 //@ pred hpItem(f *Filter, k int) = toptr(acval[f.resCache][k], cacheItem)
 //@ pred okRes(r internal.Result) = r == nil || (isptr(r, internal.ResultModifiedRequest) && asptr(r, internal.ResultModifiedRequest) != nil) || (isptr(r, internal.ResultModifiedResponse) && asptr(r, internal.ResultModifiedResponse) != nil)
@@ -40,10 +74,19 @@ package hashprefix
 //@   protects achas, acval, cacheVer, itemVer
 //@   invariant HPI(self)
 
+// hashableSubdomains: which names are looked up for a host (the host and its
+// parents, at most four labels, not the public suffix) is the bounded check's
+// subject; here it is only a function of the host.
+//@ fun hsubsLen(d string) int
+//@ fun hsubsAt(d string, j int) string
 //@ func hashableSubdomains
 //@   modifies nothing
+//@   ensures len(sub) == hsubsLen(domain) && (forall j int :: 0 <= j && j < len(sub) ==> sub[j] == hsubsAt(domain, j))
+// C11: host matching applies to A, AAAA and HTTPS questions only.
 //@ func isFilterable
+//@   property C11
 //@   modifies nothing
+//@   ensures a-aaaa-and-https-only: ok == (qt == 1 || qt == 28 || qt == 65)
 //@ func (*Filter).updateCacheLookupsMetrics
 //@   modifies nothing
 //@ func (*Filter).updateCacheSizeMetrics
@@ -94,24 +137,44 @@ package hashprefix
 //@   atcall Set set itemVer[arg2] = hsVer[f.hashes]
 //@   ensures HPI(f)
 
+// C11 (host lookups): when the verdict is not taken from the result cache, a
+// request is answered by the filter exactly when its question type is A, AAAA
+// or HTTPS and one of the host's hashable names has the SHA-256 of a listed
+// name (the first such name being non-empty - an empty name is what
+// netutil.Subdomains yields after a trailing dot, and the code treats it as no
+// match).
+// cacheServes counts the verdicts handed out from the result cache.
+//@ ghost cacheServes int
+//@ pred listedNow(s *Storage, x string) = listedUpTo(curText(s), nlines(curText(s)), x)
 //@ func (*Filter).FilterRequest
-//@   property C12
-//@   requires f != nil && f.resCacheMu != nil && f.logger != nil && f.hashes != nil && ref(f.resCache) != 0 && req != nil
-//@   modifies heap, cgetCache, cgetKey, hst, ipBytes, achas, acval, itemVer, cacheVer, lastVerdictVer, builtFor
+//@   property C12 C11
+//@   requires f != nil && f.resCacheMu != nil && f.logger != nil && f.hashes != nil && ref(f.resCache) != 0 && req != nil && SI(f.hashes)
+//@   modifies heap, cgetCache, cgetKey, hst, ipBytes, achas, acval, itemVer, cacheVer, lastVerdictVer, builtFor, ptrLoads, cacheServes
+//@   atcall clonedResult set cacheServes = cacheServes + 1
+//@   ensures sound-for-hosts: cacheServes == old(cacheServes) && r != nil ==> (old(req.QType) == 1 || old(req.QType) == 28 || old(req.QType) == 65) && (exists j int :: 0 <= j && j < hsubsLen(old(req.Host)) && listedNow(f.hashes, hsubsAt(old(req.Host), j)))
+//@   ensures complete-for-hosts: cacheServes == old(cacheServes) && r == nil && err == nil && (old(req.QType) == 1 || old(req.QType) == 28 || old(req.QType) == 65) ==> (forall j int :: 0 <= j && j < hsubsLen(old(req.Host)) ==> !listedNow(f.hashes, hsubsAt(old(req.Host), j))) || (exists j int :: 0 <= j && j < hsubsLen(old(req.Host)) && hsubsAt(old(req.Host), j) == "" && listedNow(f.hashes, hsubsAt(old(req.Host), j)))
+//@   ensures other-types-pass: cacheServes == old(cacheServes) && !(old(req.QType) == 1 || old(req.QType) == 28 || old(req.QType) == 65) ==> r == nil && err == nil
 //@   atcall clonedResult set lastVerdictVer = itemVer[item]
 //@   atcall Matches set lastVerdictVer = hsVer[f.hashes]
 //@   atcall Set set itemVer[arg2] = hsVer[f.hashes]
 //@   ensures not-older-than-the-last-completed-refresh: r != nil ==> lastVerdictVer >= locked(cacheVer[f])
-//@   loop 1 invariant -1 <= #i && #i < len(sub) && HPI(f) && cacheVer[f] == locked(cacheVer[f])
+//@   loop 1 invariant -1 <= #i && #i < len(sub) && HPI(f) && cacheVer[f] == locked(cacheVer[f]) && cacheServes == old(cacheServes) && SI(f.hashes)
+//@   loop 1 invariant forall j int :: 0 <= j && j <= #i ==> !listedNow(f.hashes, sub[j])
 
 //@ func (*Filter).refresh
-//@   property C12
+//@   property C12 C13 C11
 //@   requires f != nil && f.resCacheMu != nil && f.logger != nil && f.hashes != nil && f.refr != nil && ref(f.resCache) != 0 && ref(f.metrics) != 0 &&
-//@            f.refr.logger != nil && f.refr.http != nil && f.refr.url != nil
-//@   modifies achas, acval, cacheVer, itemVer, cacheClears, hsVer[f.hashes], replaceCalls, replaces, cleanups, sbLen, copyFailed, lastRefreshText
+//@            f.refr.logger != nil && f.refr.http != nil && f.refr.url != nil &&
+//@            f.hashes.resetMu != nil && f.hashes.hashSuffixes != nil && apCur[f.hashes.hashSuffixes] != 0
+//@   modifies achas, acval, cacheVer, itemVer, cacheClears, hsVer[f.hashes], apCur[f.hashes.hashSuffixes], listOf, slotOf, rdText, scText, scPos, scErr, ptrLoads, replaceCalls, replaces, cleanups, sbLen, copyFailed, lastRefreshText
 //@   atcall Clear set cacheVer[f] = hsVer[f.hashes]
 //@   ensures new-hashes-then-an-empty-cache: err == nil ==> hsVer[f.hashes] == old(hsVer[f.hashes]) + 1 && cacheClears[f.resCache] == old(cacheClears[f.resCache]) + 1
 //@   ensures failure-leaves-hashes-and-cache: err != nil ==> cacheClears[f.resCache] == old(cacheClears[f.resCache])
+// C13/C11: a refresh that fails (download, size limit, scan) leaves the very
+// hash set that was installed; one that succeeds installs exactly the entries
+// of the downloaded text.
+//@   ensures a-failed-refresh-keeps-the-installed-hashes: err != nil ==> hsVer[f.hashes] == old(hsVer[f.hashes]) && apCur[f.hashes.hashSuffixes] == old(apCur[f.hashes.hashSuffixes]) && curText(f.hashes) == old(curText(f.hashes))
+//@   ensures a-successful-refresh-installs-the-downloaded-list: err == nil ==> SI(f.hashes) && curText(f.hashes) == lastRefreshText
 
 // ---------------------------------------------------------------------------
 // C11: hash-prefix queries.  A label of four characters is a prefix; a legacy
